@@ -646,6 +646,20 @@ func (ndb *nodeDB) DeleteVersionsFrom(fromVersion int64) error {
 	}
 
 	// NOTICE: we don't touch fast node indexes here, because it'll be rebuilt later because of version mismatch.
+	// The mismatch must not depend on the version numbers: when the deleted versions are committed
+	// again while fast storage is disabled, the recorded version is reached again although the
+	// index still describes the deleted history. Mark the index as not built instead.
+	if ndb.hasUpgradedToFastStorage() {
+		ndb.mtx.Lock()
+		err := ndb.batch.Set(metadataKeyFormat.Key([]byte(storageVersionKey)), []byte(defaultStorageVersionValue))
+		if err == nil {
+			ndb.storageVersion = defaultStorageVersionValue
+		}
+		ndb.mtx.Unlock()
+		if err != nil {
+			return err
+		}
+	}
 
 	ndb.resetLatestVersion(dumpFromVersion - 1)
 
